@@ -113,7 +113,8 @@ func diffNames(a, b string) string {
 	return strings.Join(l, "+")
 }
 
-var bases = []aa.Base{{}, {Comment: " a comment"}, {FileInherit: true}, {NoNewPrivs: true}, {Optional: true, Comment: " because"}, {Comment: " with, comma"}}
+var bases = []aa.Base{{}, {Comment: " a comment"}, {FileInherit: true}, {NoNewPrivs: true}, {Optional: true, Comment: " because"}, {Comment: " with, comma"},
+	{Comment: " see (bug 12"}, {Comment: " was @{HOME} and \"quoted\""}}
 
 func setBase(r aa.Rule, b aa.Base) bool {
 	switch r := r.(type) {
@@ -181,7 +182,7 @@ func rulesMode(kind string, tier int) int {
 			rs = nonNil(rs)
 			bt := "plain"
 			if bi > 0 {
-				bt = []string{"", "comment", "file_inherit", "no-new-privs", "optional", "comment-with-comma"}[bi]
+				bt = []string{"", "comment", "file_inherit", "no-new-privs", "optional", "comment-with-comma", "comment-open-paren", "comment-var-quote"}[bi]
 			}
 			switch {
 			case perr != "":
@@ -214,6 +215,9 @@ func blocksMode(tier, shard, of int) int {
 	for i, r := range U {
 		if i%4 == 1 {
 			setBase(r, aa.Base{Comment: " c"})
+		}
+		if i%4 == 3 {
+			setBase(r, aa.Base{Comment: []string{" see (bug 12", " 1) needed", " was @{HOME", " foo[0-9", " a, b", " x # y"}[(i/4)%6]})
 		}
 	}
 	n := 0
